@@ -78,6 +78,8 @@ func c10Run(f []string) string {
 		return outs[0]
 	case "ftree":
 		return c10FtreeRun(f)
+	case "hist":
+		return c10HistRun(f)
 	case "par":
 		// par <w> <template> <elems> <keys>: one compiled expression evaluated from w goroutines
 		var w int
@@ -436,6 +438,8 @@ func c10Gen(r *Rand, tier string) []string {
 	}
 	// nested funcs-file functions, forward references / recursion, definitions files given as trees
 	out = append(out, c10NestCases(r, tier)...)
+	// histories through one compiled expression (hidden state: layout cache, pools, per-argument buffers)
+	out = append(out, c10HistCases(r, tier)...)
 	return out
 }
 
